@@ -1298,6 +1298,13 @@ func (self *Node) runChunk(fqname string, metadata *Metadata, res *JobResources)
 	self.runJob("main", fqname, STAGE_TYPE_CHUNK, metadata, res)
 }
 
+// The longest name of a file in most file systems (NAME_MAX).
+const maxFileNameLen = 255
+
+// The longest suffix which a job appends to its journal file name: a dot and
+// the longest notification which a job writes, split_stage_defs.
+const maxJournalSuffixLen = 1 + len(SplitPrefix) + len(StageDefsFile)
+
 func (self *Node) runJob(shellName, fqname, stageType string,
 	metadata *Metadata, res *JobResources) {
 	// Configure local variable dumping.
@@ -1316,6 +1323,19 @@ func (self *Node) runJob(shellName, fqname, stageType string,
 	shellCmd := ""
 	var argv []string
 	runFile := metadata.journalFile()
+	// The job reports back through files named <runFile>.<metadata file name>
+	// in the (flat) journal directory.  If such a name would not fit in a file
+	// name, e.g. for a map call over a very long key, none of the job's
+	// notifications could be written, and the pipestance would wait for them
+	// until the heartbeat times out.  Fail the job with a message instead.
+	if n := len(path.Base(runFile)) + maxJournalSuffixLen; runFile != "" && n > maxFileNameLen {
+		metadata.WriteErrorString(fmt.Sprintf(
+			"file name too long: the journal file names for %s.%s would be "+
+				"up to %d bytes long, and the limit is %d.  "+
+				"Use shorter keys in the map which this call is mapped over.",
+			fqname, shellName, n, maxFileNameLen))
+		return
+	}
 	version := &self.top.version
 	envs := self.top.envs
 	if td := metadata.TempDir(); td != "" {
